@@ -113,7 +113,10 @@ var specs = map[string]*propSpec{
 		guard{"allocconc.overlapping_pairs", 2000, "concurrent histories must really overlap"}, guard{"allocconc.porcupine_ok", 300, "linearizability verdicts"}).with(allocConcRun),
 	"C05": allocSpec("Non-trivial (C05) = history that reached a full pool (refusal observed or drained to capacity); distinct by (pool, seed).",
 		guard{"alloc.c05.refused_when_full", 100, "exhaustion must be reached"}, guard{"alloc.audit.drains", 500, "conservation audits"},
-		guard{"allocconc.porcupine_ok", 300, "concurrent histories with colliding hints: capacity stays exact"}).with(allocConcRun),
+		guard{"allocconc.porcupine_ok", 300, "concurrent histories with colliding hints: capacity stays exact"}).with(allocConcRun,
+		// the allocator as the prefix plugin configures it (pool and allocation size as written in a
+		// configuration): a block of the wrong size or alignment, or a refused pool, is reported here too
+		runSpec{engine: "prefix", qBatches: 8, qCases: 16, tBatches: 32, tCases: 300}),
 	"C06": allocSpec("Non-trivial (C06) = history containing a Free that must fail; distinct by (pool, seed).",
 		guard{"alloc.c06.must_fail_free", 1000, "failing-Free classes must be exercised"}, guard{"alloc.op.free.below-pool", 200, "below-pool class"},
 		guard{"allocconc.porcupine_ok", 300, "concurrent histories incl. Frees of blocks the caller does not hold"}).with(allocConcRun),
